@@ -44,7 +44,14 @@ def norm_msg(s):
     return re.sub(r"\b[a-z_][a-z0-9_]*\b", repl, s)
 
 
-def apply(cx, rules, tag="dev-none-stable"):
+def apply(cx, rules, tag=None):
+    """Quick tier: the stable-like dev configuration. Thorough tier: also macro_sep and the release profile."""
+    tags = [tag] if tag else (["dev-none-stable"] if cx.tier != "thorough" else ["dev-none-stable", "dev-msep-stable", "rel-none-stable"])
+    for t in tags:
+        _apply_one(cx, rules, t)
+
+
+def _apply_one(cx, rules, tag):
     d = lea_results(cx, tag)
     panic_tab = _load("panic_sites.json")["entries"]
     ierr_tab = _load("internal_error_sites.json")["entries"]
